@@ -88,6 +88,11 @@ def run_chain(args):
         out['why'] = twin['status'] + ':' + str(twin.get('error'))[:200]
         return out
     ops = e1.draw_history(rng, cfg, twin['timeline'], PROFILE)
+    if rng.random() < 0.2:
+        # a leftover checkpoint of an earlier computation sits at the path;
+        # the user starts over with resume=False
+        ops = [['run', rng.choice([1, 3, 10, 40, 400])], ['restart_fresh']] \
+            + ops
     out['ops'] = ops
     res = e1.execute(dict(cfg=cfg, ops=ops, tag='hist'), [MonRepeat()],
                      wall=RUN_WALL * 3)
@@ -211,6 +216,20 @@ def full_state(world):
                 bs.append([int(o.n_sample), int(o.n_reject),
                            np.asarray(o.points)])
     parts['bound_sampling_state'] = digest.digest(bs)
+    s = world.sampler
+    parts['sampler_state'] = digest.digest(dict(
+        explored=bool(s.explored), discard=bool(s._discard_exploration),
+        n_update_iter=int(s.n_update_iter), n_like_iter=int(s.n_like_iter),
+        shell=[np.asarray(getattr(s, k)) for k in (
+            'shell_n', 'shell_n_sample', 'shell_n_eff', 'shell_log_l_min',
+            'shell_log_l', 'shell_log_v', 'shell_n_sample_exp',
+            'shell_end_exp')],
+        transfer=[np.asarray(s.shell_t), np.asarray(s.points_t),
+                  np.asarray(s.log_l_t),
+                  None if s.blobs_t is None else np.asarray(s.blobs_t)],
+        points=[np.asarray(x) for x in s.points],
+        log_l=[np.asarray(x) for x in s.log_l],
+        blobs=None if s.blobs is None else [np.asarray(x) for x in s.blobs]))
     try:
         parts['file'], _ = digest.h5_file_logical(world.filepath)
     except Exception as e:
